@@ -1,5 +1,29 @@
+"""C07 - the trace pipeline processes every stream of individually well-formed events without raising: the decoder schema
+(no feasible raise site in any decoder or its __str__), the pairing functions re-discharged under this name, and the lookup
+reassembly loop (TracesParser.vnode_generator, the one loop every path-taking decoder goes through) - its step raises for no
+sequence of lookup records, whatever their qualifiers."""
 from checks import decoder_checks as D
+from pyvc.report import native
 
 
 def run_check(run, tier):
     D.standard(run, tier, 'C07')
+    from checks import c08
+    saved, run.pending_failures = getattr(run, 'pending_failures', []), []
+    c08.verify_vnode_generator(run, tier, prefix='C07/vnode_generator', only=('/noraise', '/supported', '/is-a-generator'))
+    mine, run.pending_failures = run.pending_failures, saved
+    if mine or tier == 'thorough':
+        out = native({'kind': 'lookup_robustness_search', 'seed': run.seed, 'budget': 400 if tier == 'quick' else 4000}, timeout=900)
+        run.bounded.append({'what': 'native search: streams of lookup / string / system-call records with every qualifier through the pipeline (refute mode only)',
+                            'tried': out.get('tried'), 'bound': out.get('bound'), 'found': bool(out.get('found'))})
+        f = out.get('found')
+        if f and not mine:
+            mine = [('C07/bounded-search', 'refuted', 'native search')]
+            run.add('C07/bounded-search', 'refuted', 'native bounded search', 0, 'pykdebugparser.traces_parser:TracesParser.vnode_generator')
+        for ob, status, detail in mine:
+            if f:
+                run.violation(ob, {'request': f['request'], 'native': f, 'solver_output': '%s (%s)' % (status, detail)}, True, what=f.get('what', ''))
+            elif status == 'refuted':
+                run.violation(ob, {'request': None, 'solver_output': 'obligation refuted (%s)' % detail}, False, what='obligation %s no longer holds' % ob)
+            else:
+                run.undecide(ob, 'not proved (%s)' % detail)
